@@ -47,5 +47,6 @@ MUTANTS = [
     m("c18-call-before-hit-test", "C18", "R4", ST, "            if key not in state._cache or state._cache[key] is None:\n                state._cache[key] = method(self, state)", "            val = method(self, state)\n            if key not in state._cache or state._cache[key] is None:\n                state._cache[key] = val"),
     m("c18-aux-not-stored", "C18", "R4", ST, "                if isinstance(vals, tuple):\n                    for k, v in zip(keys, vals, strict=False):\n                        state._cache[k] = v\n                else:\n                    state._cache[prim_key] = vals", "                if isinstance(vals, tuple):\n                    state._cache[prim_key] = vals[0]\n                else:\n                    state._cache[prim_key] = vals"),
     m("c18-h1flow-writes-pos", "C18", "R5", S, "        state.mom -= dt * self.dh1_dpos(state)", "        state.mom -= dt * self.dh1_dpos(state)\n        state.pos = state.pos + 0.0"),
+    m("c18-transition-builds-fresh-state", "C18", "R6", "transitions.py", "        state.mom = self.system.sample_momentum(state, rng)\n        return state, None\n\n\nclass CorrelatedMomentumTransition", "        from mici.states import ChainState\n\n        state = ChainState(pos=state.pos, mom=self.system.sample_momentum(state, rng), dir=state.dir)\n        return state, None\n\n\nclass CorrelatedMomentumTransition"),
     m("c18-twin-h2-extra-dep", "C18", None, S, '    @cache_in_state("mom")\n    def h2(self, state: ChainState) -> ScalarLike:\n        return 0.5 * state.mom @ self.dh2_dmom(state)', '    @cache_in_state("mom", "pos")\n    def h2(self, state: ChainState) -> ScalarLike:\n        return 0.5 * state.mom @ self.dh2_dmom(state)', twin=True),
 ]
